@@ -240,6 +240,22 @@ def main(replay=None):
     n_syn = e_syn = 0; err_syn = []
     if hbs:
         n_syn, e_syn, err_syn = c10_ops.run_ops(ck, hbs, specs, okids, [9, 4, 5, 7], True, 1e-13, compare_packed, desc)
+    # ---- one loaded Geometry, finalize() again with the other ordering(s): dimension and matrix as for a fresh load
+    lines = ["c10 10 %d %d" % (k, 1 if (specs[k][0].startswith("nested") or specs[k][0].startswith("shell")) else 0) for k in ids]
+    rc, io, err = core.run_harness(hb, lines, ck.workdir, timeout=900, tag="refinalize")
+    refinalize_steps = 0
+    for k, line in zip(ids, io):
+        kind = specs[k][0]; rp = dict(kind="refinalize", specs=[list(specs[k])])
+        zi, fi = core.fparse(line)
+        if zi is None or zi[0] != 0:
+            ck.violation("finalize again: harness failed (%s)" % kind, "re-finalizing the loaded geometry of %s failed: %s" % (kind, line[:100]), rp); continue
+        for st in range(zi[1]):
+            o, status, expect, dim, fdim, eq = zi[2 + 6 * st: 8 + 6 * st]; refinalize_steps += 1
+            if status != 0 or dim != fdim or expect != fdim or not eq:
+                ck.violation("finalize again: head matrix differs from a fresh load (%s)" % kind,
+                             "%s: after %d finalize() call(s) on the same loaded Geometry (last with OLD_ORDERING=%d) nb_parameters-nb_current_barrier_triangles = %d and HeadMat %s, while a fresh load with that ordering gives dimension %d%s"
+                             % (kind, st + 1, o, expect, ("throws (status %d)" % status) if status else ("has dimension %d" % dim), fdim, "" if status or dim != fdim else " and a different matrix"),
+                             dict(rp, step=st, old=o, expect=expect, dim=dim, fresh=fdim)); break
     # ---- (c) numeric spec checks (measured): potential row sums, conditioning after deflation, A*inv(A)=I
     lines = ["c10 3 %d %d" % (k, 1 if specs[k][2] else 0) for k in ids]
     extra = []
@@ -297,7 +313,7 @@ def main(replay=None):
     ck.cov.update(evaluations=len(specs), distinct_nontrivial=len(set(specs)),
                   rule="generated head models (nested 1-4, split hemispheres with shared vertices, sibling inclusions, non-conductive inclusions/layers, random sigma, both orderings); distinct = distinct (topology, level, ordering, seed)",
                   samples=samples, op_distribution=dist, entries_compared=nentries, nblock_cases=len(ncases), nblock_entries_compared=nblock_entries,
-                  numeric_measured=numeric, ops_cases=n_ops, ops_entries_compared=e_ops, ops_assert_outcomes=err_ops,
+                  numeric_measured=numeric, refinalize_steps=refinalize_steps, ops_cases=n_ops, ops_entries_compared=e_ops, ops_assert_outcomes=err_ops,
                   injected_kernel_cases=n_syn, injected_kernel_entries_compared=e_syn, injected_kernel_assert_outcomes=err_syn, ifirst_sentinel_picks_other_mesh=sentinel_cases, traces_validated_against_impl=len(specs) + len(ncases))
     ck.assumptions += [
         "wf_indexed (index bijection of the dumped geometry): Section hypothesis of the structural theorems, discharged for every geometry accepted by finalize (default ordering) by C11's bridge coq/Geom/IndexBridgeC10.v",
